@@ -368,6 +368,7 @@ func init() {
 			ruleTPL2(c)
 			ruleTPL3(c)
 			ruleTPL4(c)
+			ruleTPL5(c)
 		},
 	})
 	register(&PropSpec{
